@@ -4,6 +4,8 @@ from .common import *
 
 def write(path, data):
     os.makedirs(os.path.dirname(path), exist_ok=True)
+    if os.path.islink(path):
+        os.remove(path)          # the writer replaces a link (possibly dangling) by a regular file
     mode = 'wb' if isinstance(data, (bytes, bytearray)) else 'w'
     with open(path, mode) as f:
         f.write(data)
